@@ -99,9 +99,9 @@ def slices(tier):
     ]
     if not q:
         out += [
-            Slice("d-expr-wide", [F, G, X], D2 | SC, 4, idx=(10,), levels=[{"mul", "div", "dot"}, {"grad", "div", "dx"}, {"inner", "index", "mul"}, PIPE], mikinds=("fixed",), chain="strict", **kw),
-            Slice("alg2", [F, G, U, A, X, VOL], SC, 3, lits=[LIT["two"]], idx=(10,), levels=[SC | {"tr", "det", "outer", "transpose"}, SC | {"tr", "det"}, PIPE], mikinds=("fixed", "name"), **kw),
-            Slice("d-expr2", [F, G, U, X], D2 | SC, 4, idx=(10,), levels=[{"mul", "div", "index", "dot", "outer", "inner"}, D2, {"inner", "dot", "index", "mul", "tr"}, PIPE], mikinds=("fixed", "name"), **kw),
+            Slice("d-expr-wide", [F, G, X], D2 | SC, 4, idx=(10,), levels=[{"mul", "div", "dot"}, {"grad", "div", "dx"}, {"inner", "index", "mul"}, PIPE], mikinds=("fixed",), chain="strict", simulate=1500, depth=6, **kw),
+            Slice("alg2", [F, G, U, A, X, VOL], SC, 3, lits=[LIT["two"]], idx=(10,), levels=[SC | {"tr", "det", "outer", "transpose"}, SC | {"tr", "det"}, PIPE], mikinds=("fixed", "name"), simulate=1500, depth=6, **kw),
+            Slice("d-expr2", [F, G, U, X], D2 | SC, 4, idx=(10,), levels=[{"mul", "div", "index", "dot", "outer", "inner"}, D2, {"inner", "dot", "index", "mul", "tr"}, PIPE], mikinds=("fixed", "name"), simulate=1500, depth=6, **kw),
         ]
     return out
 
